@@ -299,7 +299,7 @@ def hot_single_preemption(run: common.Run, pairs: List[Tuple[Tuple, Tuple]], rep
     return n
 
 
-HOT_PAIRS = [(("C", 0, 2), ("I", 3, 2)), (("I", 5, 2), ("C", 8, 2)), (("C", 13, 2), ("C", 15, 2)), (("I", 21, 2), ("I", 22, 2))]
+HOT_PAIRS = [(("C", 0, 2), ("C", 0, 2)), (("C", 2, 3), ("C", 2, 2)), (("C", 0, 2), ("I", 3, 2)), (("I", 5, 2), ("C", 8, 2)), (("C", 13, 2), ("C", 15, 2)), (("I", 21, 2), ("I", 22, 2))]
 
 
 def exhaustive_single_preemption(run: common.Run, pairs: List[Tuple[Tuple, Tuple]], report, shard: Optional[Tuple[int, int]] = None, stride: int = 1) -> int:
